@@ -8,6 +8,7 @@ package c18
 import (
 	"context"
 	"crypto/ed25519"
+	"errors"
 	"fmt"
 	"os"
 	"sort"
@@ -56,8 +57,10 @@ type Case struct {
 	IdStyle int        `json:"id_style"` // 0: real peer ids derived from keys, 1: short strings
 	Nodes   []NodeSpec `json:"nodes"`
 	// Routes[i] says how participant i (nodes in order, then the client) learns the
-	// configuration: 0 app config, 1 last stored configuration, 2 update pulled from the
-	// configuration source after starting with an older configuration. Missing = 0.
+	// configuration (see "Routes" below): 0 app config, 1 last stored configuration, 2 update
+	// pulled from the source after starting on an older configuration, 3..11 stored
+	// configuration vs. a bootstrap app config that differs in coordinator entries, combined
+	// with a source that answers not-changed / fails / delivers. Missing = 0.
 	Routes []int `json:"routes"`
 	// metamorphic variants, all asked from the client's viewpoint
 	Perm     []int      `json:"perm"`      // order of nodes in the permuted variant (indices into Nodes; missing ones appended)
@@ -105,6 +108,7 @@ func (s *stubConf) GetNodeConfUpdateInterval() int      { return 3600 }
 
 type stubSource struct {
 	next *nodeconf.Configuration // delivered once, then "not changed"
+	err  error                   // != nil: the source is unreachable
 	mu   sync.Mutex
 }
 
@@ -113,6 +117,9 @@ func (s *stubSource) Name() string        { return nodeconf.CNameSource }
 func (s *stubSource) GetLast(_ context.Context, currentId string) (nodeconf.Configuration, error) {
 	s.mu.Lock()
 	defer s.mu.Unlock()
+	if s.err != nil {
+		return nodeconf.Configuration{}, s.err
+	}
 	if s.next != nil && s.next.Id != currentId {
 		return *s.next, nil
 	}
@@ -168,30 +175,106 @@ func cloneConf(c nodeconf.Configuration) nodeconf.Configuration {
 	return out
 }
 
+// Routes by which a participant learns the configuration.
+//
+//	0  app config, nothing stored
+//	1  last stored configuration, app config identical
+//	2  starts on an older app config, the source then delivers the current configuration
+//	3+ a configuration is stored AND the app (bootstrap) config differs from it in its
+//	   coordinator entries: route = 3 + 3*diff + src with
+//	   diff 0: app config has a coordinator node the stored one lacks (Init merges it in and
+//	           marks the merged configuration "-1" = to be re-pulled)
+//	   diff 1: app config has an extra address on a coordinator both know (same branch)
+//	   diff 2: app config lacks the coordinators of the stored one (nothing to merge)
+//	   src  0: the source answers "not changed", 1: the source fails, 2: the source delivers
+//	           the current configuration (the stored one is then a stale older one)
+const nRoutes = 12
+
+const bootCoordinator = "c18-bootstrap-coordinator"
+
+func routeParts(route int) (merge bool, diff, src int) {
+	if route < 3 {
+		return false, 0, 0
+	}
+	return true, (route - 3) / 3, (route - 3) % 3
+}
+
+func staleConf(conf nodeconf.Configuration, self string) nodeconf.Configuration {
+	return nodeconf.Configuration{
+		Id:        conf.Id + "-old",
+		NetworkId: conf.NetworkId,
+		Nodes: []nodeconf.Node{
+			{PeerId: self, Addresses: []string{"old:1"}, Types: []nodeconf.NodeType{nodeconf.NodeTypeTree}},
+			{PeerId: "old-coordinator", Addresses: []string{"old:2"}, Types: []nodeconf.NodeType{nodeconf.NodeTypeCoordinator}},
+		},
+	}
+}
+
 // newParticipant starts a real nodeconf service for account `self` that ends up with
-// configuration conf, delivered by the given route.
+// configuration conf (possibly enriched with bootstrap coordinator entries, which are not
+// sync nodes), delivered by the given route.
 func newParticipant(self string, conf nodeconf.Configuration, route int) (*participant, error) {
 	p := &participant{id: self, svc: nodeconf.New(), a: new(app.App)}
 	cfg := &stubConf{c: cloneConf(conf)}
 	src := &stubSource{}
 	store := &stubStore{}
 	applied := make(chan string, 4)
-	switch route {
-	case 1: // the configuration was stored by an earlier run; the app config is the same network
+	wantId, waitUpdate := conf.Id, false
+	merge, diff, srcMode := routeParts(route)
+	switch {
+	case route == 1: // the configuration was stored by an earlier run; the app config is the same network
 		c := cloneConf(conf)
 		store.last = &c
-	case 2: // start with an older configuration, then the source delivers the current one
-		old := nodeconf.Configuration{
-			Id:        conf.Id + "-old",
-			NetworkId: conf.NetworkId,
-			Nodes: []nodeconf.Node{
-				{PeerId: self, Addresses: []string{"old:1"}, Types: []nodeconf.NodeType{nodeconf.NodeTypeTree}},
-				{PeerId: "old-coordinator", Addresses: []string{"old:2"}, Types: []nodeconf.NodeType{nodeconf.NodeTypeCoordinator}},
-			},
-		}
-		cfg.c = old
+	case route == 2: // start with an older configuration, then the source delivers the current one
+		cfg.c = staleConf(conf, self)
 		c := cloneConf(conf)
 		src.next = &c
+		waitUpdate = true
+	case merge:
+		stored := cloneConf(conf)
+		if srcMode == 2 {
+			stored = staleConf(conf, self)
+			c := cloneConf(conf)
+			src.next = &c
+			waitUpdate = true
+		} else if srcMode == 1 {
+			src.err = errors.New("c18: configuration source unreachable")
+		}
+		appConf := cloneConf(stored)
+		rewritten := false
+		switch diff {
+		case 1: // extra address on a coordinator both configurations know
+			for i := range appConf.Nodes {
+				if appConf.Nodes[i].HasType(nodeconf.NodeTypeCoordinator) {
+					appConf.Nodes[i].Addresses = append(appConf.Nodes[i].Addresses, "bootstrap.example:443")
+					rewritten = true
+					break
+				}
+			}
+			if rewritten {
+				break
+			}
+			fallthrough // no coordinator in the stored configuration: add one
+		case 0:
+			appConf.Nodes = append([]nodeconf.Node{{PeerId: bootCoordinator, Addresses: []string{"bootstrap.example:443"},
+				Types: []nodeconf.NodeType{nodeconf.NodeTypeCoordinator}}}, appConf.Nodes...)
+			rewritten = true
+		default: // the app config knows none of the stored coordinators
+			kept := appConf.Nodes[:0]
+			for _, n := range appConf.Nodes {
+				if !n.HasType(nodeconf.NodeTypeCoordinator) {
+					kept = append(kept, n)
+				}
+			}
+			appConf.Nodes = kept
+		}
+		cfg.c = appConf
+		store.last = &stored
+		if rewritten && srcMode != 2 {
+			wantId = "-1" // Init marks the merged configuration for re-pulling; the re-pull brings nothing
+		}
+	}
+	if waitUpdate {
 		p.svc.ObserveChanges(func(_, cur nodeconf.NodeConf) { applied <- cur.Id() })
 	}
 	acc := accounttest.NewWithAcc(&accountdata.AccountKeys{PeerId: self})
@@ -199,7 +282,7 @@ func newParticipant(self string, conf nodeconf.Configuration, route int) (*parti
 	if err := p.a.Start(context.Background()); err != nil {
 		return nil, fmt.Errorf("start nodeconf for %s: %w", self, err)
 	}
-	if route == 2 {
+	if waitUpdate {
 		select {
 		case id := <-applied:
 			if id != conf.Id {
@@ -208,12 +291,12 @@ func newParticipant(self string, conf nodeconf.Configuration, route int) (*parti
 			}
 		case <-time.After(20 * time.Second):
 			p.close()
-			return nil, fmt.Errorf("participant %s never applied the configuration delivered by the source", self)
+			return nil, fmt.Errorf("participant %s (route %d) never applied the configuration delivered by the source", self, route)
 		}
 	}
-	if got := p.svc.Id(); got != conf.Id {
+	if got := p.svc.Id(); got != wantId {
 		p.close()
-		return nil, fmt.Errorf("participant %s runs configuration %q, want %q", self, got, conf.Id)
+		return nil, fmt.Errorf("participant %s (route %d) runs configuration %q, want %q", self, route, got, wantId)
 	}
 	return p, nil
 }
@@ -410,7 +493,7 @@ func run(c Case) (vstat.Outcome, error) {
 		}
 	}()
 	routeOf := func(i int) int {
-		if i < len(c.Routes) && c.Routes[i] >= 0 && c.Routes[i] <= 2 {
+		if i < len(c.Routes) && c.Routes[i] >= 0 && c.Routes[i] < nRoutes {
 			return c.Routes[i]
 		}
 		return 0
@@ -590,6 +673,15 @@ func run(c Case) (vstat.Outcome, error) {
 	if routesUsed[2] {
 		classes["route-source-update"] = true
 	}
+	for r := range routesUsed {
+		if merge, diff, src := routeParts(r); merge {
+			classes["route-stored-vs-bootstrap-config"] = true
+			if diff != 2 && src != 2 {
+				classes["route-merged-configuration-kept"] = true // active configuration is the merged "-1" one
+			}
+			classes[[]string{"route-merge-source-unchanged", "route-merge-source-error", "route-merge-source-new"}[src]] = true
+		}
+	}
 	if len(distinctS) > 1 {
 		classes["responsible-set-varies-with-key"] = true
 	}
@@ -653,9 +745,9 @@ func enumerate(yield func(Case) bool) {
 			c := Case{IdStyle: idx % 2, AddrSalt: "alt", Groups: fixedGroups}
 			for i, m := range cur {
 				c.Nodes = append(c.Nodes, NodeSpec{Id: i, Types: subset(m), Addrs: []string{fmt.Sprintf("10.0.0.%d:4430", i)}})
-				c.Routes = append(c.Routes, (idx+i)%3)
+				c.Routes = append(c.Routes, (idx+5*i)%nRoutes)
 			}
-			c.Routes = append(c.Routes, idx%3)
+			c.Routes = append(c.Routes, (idx+7)%nRoutes)
 			c.Extra = []NodeSpec{{Id: 10, Types: []string{"coordinator"}, Addrs: []string{"c:1"}}, {Id: 11, Types: []string{"file", "consensus"}}}
 			return yield(c)
 		}
@@ -722,7 +814,7 @@ func genCase(rt *rapid.T) Case {
 	for i := 0; i < n; i++ {
 		c.Nodes = append(c.Nodes, genNode(rt))
 	}
-	c.Routes = rapid.SliceOfN(rapid.IntRange(0, 2), n+1, n+1).Draw(rt, "routes")
+	c.Routes = rapid.SliceOfN(rapid.IntRange(0, nRoutes-1), n+1, n+1).Draw(rt, "routes")
 	c.Perm = rapid.SliceOfN(rapid.IntRange(0, n-1), 0, n).Draw(rt, "perm")
 	ne := rapid.IntRange(0, 3).Draw(rt, "nExtra")
 	for i := 0; i < ne; i++ {
@@ -751,7 +843,7 @@ func TestRegCorners(t *testing.T) {
 		c := Case{Groups: fixedGroups, AddrSalt: "alt"}
 		for i, ts := range types {
 			c.Nodes = append(c.Nodes, NodeSpec{Id: i, Types: ts, Addrs: []string{fmt.Sprintf("h%d:1", i)}})
-			c.Routes = append(c.Routes, i%3)
+			c.Routes = append(c.Routes, (3+4*i)%nRoutes)
 		}
 		c.Extra = []NodeSpec{{Id: 20, Types: []string{"coordinator"}}}
 		return c
